@@ -60,7 +60,7 @@ def gen_history(rng, tier, profile=None):
     ops = [["R", running]]
     n_sub = 0
     for _ in range(n_ops):
-        if n_sub and rng.random() < 0.04:
+        if n_sub and rng.random() < profile.get("p_refused", 0.04):
             # a request the market refuses by design (tolerated by the caller); the market is then used normally
             ops.append(["RF", rng.choice(RF_FORMS), rng.randrange(n_sub)])
             continue
@@ -161,6 +161,36 @@ def gen_deep_cancel_history(rng, tier):
             "fund_seed": rng.randrange(1 << 30), "scalars": rng.choice([None] * 10 + ["numpy", "int"])}
 
 
+def gen_tie_history(rng, tier):
+    """large groups of resting orders that share price level AND acceptance step (only their ids rank them), eaten
+    into by many small rounds from the other side, with the remainder re-inserted after every round."""
+    tick = rng.choice([1.0, 0.5, 0.1, 10.0])
+    base = rng.choice([100, 1000])
+    ops = [["R", True]]
+    for _ in range(rng.randint(1, 3)):
+        side = rng.random() < 0.5
+        levels = [base + (-(k + 1) if side else (k + 1)) for k in range(rng.randint(1, 3))]
+        # the block: 6-16 orders per level, all in one step
+        for lev in levels:
+            for _ in range(rng.randint(6, 16)):
+                ops.append(["L", side, lev * tick, rng.randint(1, 3), rng.choice([None, None, 40]), rng.randrange(3)])
+        ops.append(["T"])
+        for _ in range(rng.randint(8, 30)):
+            r = rng.random()
+            if r < 0.55:
+                ops.append(["M", not side, rng.randint(1, 4), None, 3])
+            elif r < 0.8:
+                ops.append(["LX", not side, rng.choice([0, 0, 1, 2]), rng.randint(1, 5), 3])
+            elif r < 0.9:
+                ops.append(["L", side, rng.choice(levels) * tick, rng.randint(1, 2), None, rng.randrange(3)])
+            else:
+                ops.append(["T"])
+            if rng.random() < 0.1:
+                ops.append(["CR", side])
+    return {"tick": tick, "p0": base * tick, "auto": True, "mode": "tie-block", "ops": ops,
+            "fund_seed": rng.randrange(1 << 30), "scalars": None}
+
+
 def gen_churn_history(rng, tier):
     """accumulation: hundreds of short-lived orders with a lifetime that are cancelled or filled long before they
     would expire, next to a few resting orders whose expiry must still happen exactly on time."""
@@ -242,6 +272,8 @@ class DirectRun:
             ti = {"L": 4, "M": 3}.get(k)
             if ti is not None and op[ti] is not None and sc == "numpy":
                 op[ti] = np.int64(op[ti])
+            if sc == "int" and k == "L" and float(op[2]).is_integer():
+                op[2] = int(op[2])     # a whole-number price written as a Python int
             if sc == "numpy":
                 if k == "L":
                     op[2], op[3] = np.float64(op[2]), np.int64(op[3])
@@ -305,6 +337,11 @@ class DirectRun:
                     m._add_order(Order(agent_id=0, market_id=m.market_id + 7, is_buy=bool(op[2] % 2), kind=LIMIT_ORDER,
                                        volume=1 + op[2] % 3, price=m.get_market_price() + (op[2] % 5 - 2) * m.tick_size))
                 elif form == "resubmission":
+                    # preferably an order that is resting right now (its object sits in the book)
+                    live = [x for x in self.submitted if x.order_id is not None and x.volume > 0 and not x.is_canceled
+                            and not (x.ttl is not None and x.placed_at + x.ttl < m.time)]
+                    if live and op[2] % 4 != 0:
+                        old = live[op[2] % len(live)]
                     if old is None or old.order_id is None:
                         return
                     m._add_order(old)
@@ -326,6 +363,8 @@ class DirectRun:
                 taps.hits["refused_request:" + form] += 1
             else:
                 taps.hits["REFUSAL-EXPECTED-BUT-ACCEPTED:" + form] += 1
+            # a quiescent point: a refused request must have left book, quotes and statistics as they were
+            taps.emit("refused_ret", mkt=m, running=m.is_running, form=form)
         elif k == "XF":
             try:
                 m._execution()
